@@ -43,6 +43,10 @@ type loadExtra struct {
 	// LogOpts: the caller keeps ONE LogOptions value and hands it to every load it makes (the loaders and NewLog fill
 	// in their defaults through the pointer; the next load gets the same value again)
 	LogOpts *ipfslog.LogOptions
+	// FetchOpts / FetchOptsL: likewise ONE fetch-options value per options type for every load; the caller sets the
+	// fields it uses before each load and never touches the others (IO in particular)
+	FetchOpts  *iface.FetchOptions
+	FetchOptsL *ipfslog.FetchOptions
 }
 
 func doLoad(ctx context.Context, api coreiface.CoreAPI, w *sim.World, loader string, manifest cid.Cid, jsonLog *iface.JSONLog, entries []iface.IPFSLogEntry, hash cid.Cid, length *int, conc int, exclude iface.ExcludeFunc, timeout int, extra ...loadExtra) (*ipfslog.IPFSLog, error) {
@@ -75,15 +79,27 @@ func doLoad(ctx context.Context, api coreiface.CoreAPI, w *sim.World, loader str
 		}()
 		defer func() { close(progress); <-done }()
 	}
+	fl := &ipfslog.FetchOptions{}
+	if x.FetchOptsL != nil {
+		fl = x.FetchOptsL
+	}
+	fi := &iface.FetchOptions{}
+	if x.FetchOpts != nil {
+		fi = x.FetchOpts
+	}
 	switch loader {
 	case "manifest":
-		return ipfslog.NewFromMultihash(ctx, api, id, manifest, lo, &ipfslog.FetchOptions{Length: length, Concurrency: conc, ShouldExclude: exclude, Exclude: x.Known, Timeout: x.Timeout, SortFn: fsort, ProgressChan: progress})
+		fl.Length, fl.Concurrency, fl.ShouldExclude, fl.Exclude, fl.Timeout, fl.SortFn, fl.ProgressChan = length, conc, exclude, x.Known, x.Timeout, fsort, progress
+		return ipfslog.NewFromMultihash(ctx, api, id, manifest, lo, fl)
 	case "json":
-		return ipfslog.NewFromJSON(ctx, api, id, jsonLog, lo, &iface.FetchOptions{Length: length, Concurrency: conc, Timeout: x.Timeout, ProgressChan: progress})
+		fi.Length, fi.Concurrency, fi.Timeout, fi.ProgressChan = length, conc, x.Timeout, progress
+		return ipfslog.NewFromJSON(ctx, api, id, jsonLog, lo, fi)
 	case "entries":
-		return ipfslog.NewFromEntry(ctx, api, id, entries, lo, &iface.FetchOptions{Length: length, Concurrency: conc, Exclude: x.Known, Timeout: x.Timeout, ProgressChan: progress})
+		fi.Length, fi.Concurrency, fi.Exclude, fi.Timeout, fi.ProgressChan = length, conc, x.Known, x.Timeout, progress
+		return ipfslog.NewFromEntry(ctx, api, id, entries, lo, fi)
 	case "hash":
-		return ipfslog.NewFromEntryHash(ctx, api, id, hash, lo, &ipfslog.FetchOptions{Length: length, Concurrency: conc, ShouldExclude: exclude, Exclude: x.Known, Timeout: x.Timeout, SortFn: fsort, ProgressChan: progress})
+		fl.Length, fl.Concurrency, fl.ShouldExclude, fl.Exclude, fl.Timeout, fl.SortFn, fl.ProgressChan = length, conc, exclude, x.Known, x.Timeout, fsort, progress
+		return ipfslog.NewFromEntryHash(ctx, api, id, hash, lo, fl)
 	}
 	return nil, fmt.Errorf("harness: unknown loader %s", loader)
 }
